@@ -11,17 +11,24 @@ MANIFEST = dict(
     text="Lean 4 theorems: libtins' little-endian sum_range/do_checksum equal the RFC 1071 big-endian one's-complement sum "
          "(byte-order independence) and every checksum tail (IP, TCP, UDP incl. 0->0xffff, ICMP, ICMPv6, ICMP extensions) "
          "verifies for all buffers <= 65535 bytes; the nibble-table crc32 (table regenerated from the source) equals the "
-         "bitwise IEEE CRC-32; a code-shaped serialisation model of Ethernet/802.1Q/IPv4/IPv6/TCP/UDP/ICMP/Raw stacks "
-         "satisfies an RFC dissector. The same statements are proved over the code-shaped wire models of C01-C04 "
-         "(Wire/Derived: checksums verify in situ, length / offset fields equal what they govern, next-protocol tags name the "
-         "follower, Ethernet pads to 60 with zeros) and, through layer_in_packet, inside the final bytes of whole packets of any "
-         "depth (packet_ip_udp/tcp/icmp, packet_ip6_*, packet_eth). Tied to the code by three-way differential runs (implementation under ASan/UBSan vs "
-         "model vs RFC dissector oracle) on API-built and re-serialised parsed packets, plus libpcap filter predicates.",
+         "bitwise IEEE CRC-32. length_fields: for every stack of the code-shaped serialisation model (EthernetII, 802.1Q/QinQ, "
+         "802.3, LLC, SNAP, PPPoE, MPLS, loopback, SLL, IPv4+options, IPv6+extension chain, AH, ESP, TCP+options, UDP, "
+         "ICMP/ICMPv6 incl. RFC 4884 extensions, RC4 EAPOL, RadioTap +-FCS, RawPDU; any depth, any mix) an independent RFC "
+         "dissector accepts the whole serialisation: every length / header-length field equals the octets it governs, every "
+         "next-protocol tag names the follower, padding is zero and minimal, checksums and the RadioTap FCS verify, set "
+         "values are read back (induction over the stack, one step lemma per class). The same statements are proved over the "
+         "code-shaped wire models of C01-C04 (Wire/Derived: checksums in situ, lengths, tags, Ethernet padding, RadioTap "
+         "it_len / FCS for every option payload, EAPOL and 802.3 lengths) and, through layer_in_packet, inside the final bytes "
+         "of whole packets. Tied to the code by three-way differential runs (implementation under ASan/UBSan vs model vs RFC "
+         "dissector oracle) on API-built and re-serialised parsed packets, libpcap filter predicates and a python/zlib check "
+         "of RadioTap it_len / FCS.",
     note="Trusted: Lean kernel + standard axioms; hand-written models tied by correspondence (harness/c05_wire.cpp); the RFC "
-         "dissector (lean/TinsModel/Checksum/Dissect.lean) and libpcap as oracles; generator coverage bounds what the tie sees; "
-         "little-endian host branch only.",
-    technique="Lean 4 proof (arithmetic mod 65535, GF(2)-linearity of the CRC register) + model/impl correspondence + RFC "
-              "dissector and libpcap oracles",
+         "dissector (lean/TinsModel/Checksum/Dissect.lean), libpcap and zlib as oracles; generator coverage bounds what the "
+         "tie sees; little-endian host branch only. length_fields excludes, as explicit decidable predicates, the regions of "
+         "KF-C05-1/2 (RFC 4884 length without padding) and KF-C05-10/11 (RFC 4884 length > 255 units stored modulo 256) and "
+         "stacks the dissector cannot delimit (a class without a length field of its own inside another layer's padding).",
+    technique="Lean 4 proof (arithmetic mod 65535, GF(2)-linearity of the CRC register, induction over the layer stack against "
+              "the dissector's introduction rules) + model/impl correspondence + RFC dissector, libpcap and zlib oracles",
     design="DESIGN.md §6 C05")
 
 CASE_START = ("sum", "crc", "ph4", "ph6", "pkt", "pcap", "reser")
@@ -762,8 +769,10 @@ def run(chk):
     chk.cov["rule"] = ("ops = byte strings for sum_range/do_checksum/crc32/pseudo headers; layer stacks built through the API "
                        "(Ethernet, 802.1Q/QinQ, IPv4+options, IPv6+extension chain, TCP+options, UDP, ICMP/ICMPv6 incl. RFC 4884 "
                        "extensions, PPPoE, MPLS, 802.3/LLC/SNAP, loopback, SLL, AH, ESP, EAPOL, RadioTap) incl. boundary frames "
-                       "(44..48 octet payloads), UDP datagrams crafted to checksum 0, original-datagram sizes around 128; "
-                       "re-serialised parsed packets with damaged checksums / bit flips; distinct_nontrivial = distinct ops")
+                       "(44..48 octet payloads), UDP datagrams crafted to checksum 0, original-datagram sizes around 128 and "
+                       "around the 8-bit limit of the RFC 4884 length (1017..1020 / 2033..2040 octets); "
+                       "re-serialised parsed packets with damaged checksums / bit flips; crafted RadioTap headers (random "
+                       "field sets, FCS right / wrong / absent); distinct_nontrivial = distinct ops")
     chk.assumptions += [
         "little-endian host (models follow TINS_IS_LITTLE_ENDIAN); big-endian branches not modelled",
         "size() == total_sz in the checksum tails (a C02 fact; observed by correspondence of the serialised bytes)",
@@ -771,9 +780,14 @@ def run(chk):
         "TCP/UDP/ICMPv6 not directly inside IPv4/IPv6 (e.g. behind AH) get no checksum: excluded by the property text",
         "802.3 (Dot3) frames are not padded by libtins; the 60-octet rule is checked for EthernetII only (property anchor)",
         "libpcap predicates only for eth/802.1Q*/IP(v6) stacks with fragment offset 0 and no IPv6 extension headers",
+        "SNAP / SLL name a VLAN tag by 0x8100 also when a second tag follows (0x88A8 is derived by EthernetII only); the "
+        "EAPOL body length covers the stack carried behind the key; an AH ICV is a whole number of 32-bit words",
+        "the RFC 4884 length octet is only switched on (use_length_field) on the extensible message types; elsewhere it is "
+        "part of the identifier the user set",
     ]
     chk.trusted += ["correspondence harness harness/c05_wire.cpp + generators in checks/C05.py",
-                    "RFC dissector lean/TinsModel/Checksum/Dissect.lean (oracle), libpcap pcap_compile/pcap_offline_filter (oracle)",
+                    "RFC dissector lean/TinsModel/Checksum/Dissect.lean (oracle), libpcap pcap_compile/pcap_offline_filter (oracle), "
+                    "python zlib.crc32 + radiotap_view in checks/C05.py (oracle for RadioTap it_len / FCS)",
                     "translator/gen_crc.py (CRC table extraction)",
                     "g++ 12 / ASan+UBSan build of the repo's working tree"]
     chk.extra["modelled_not_proved"] = MODELLED_NOT_PROVED
@@ -781,13 +795,17 @@ def run(chk):
 
 
 MODELLED_NOT_PROVED = [
-    "acceptance of the whole serialisation by Dissect.walk for arbitrary stacks (length_fields_outside_known_findings is a "
-    "stated def): proved are the per-layer field theorems, their validity at any depth (layer_in_situ) and the IPv4 bundle "
-    "(length_fields_partial)",
-    "PPPoE / MPLS / SNAP / SLL / loopback / AH tag and length assignments, the IPv6 extension chain, the RFC 4884 layout with "
-    "extensions, ICMPv6 checksum inside serialised stacks: model + correspondence + oracle only (the checksum tails themselves "
-    "are proved for all buffers)",
-    "RadioTap header (it_len, FCS placement), EAPOL, LLC: harness + oracle only, no model",
+    "stacks outside `delimited` (Checksum/Walk/Defs.lean): a class without a length field of its own (EthernetII, padded "
+    "802.1Q, ICMP, ICMPv6, 802.3, RadioTap, TCP under a pseudo header) inside another layer's zero padding, RFC 4884 "
+    "extensions without an original datagram or on a message type that is not extensible, PPPoE session packets with tags / "
+    "discovery packets with a payload, a top-level MPLS label: the RFC dissector cannot delimit them (not generated either)",
+    "the regions of the known findings KF-C05-1/2 (rfc4884Unpadded) and KF-C05-10/11 (rfc4884Overflow): refuted on a witness "
+    "each (length_fields_full_fails, length_fields_outside_unpadded_fails)",
+    "RadioTap objects other than the default-constructed one in the C05 serialisation model: the wire model covers every "
+    "option payload (wire_radiotap_it_len / wire_radiotap_fcs); crafted headers are tied by `reser radiotap` + oracle + zlib",
+    "re-serialised parsed packets (`reser`): RFC dissector in non-strict mode + zlib as oracles; the theorems over them are "
+    "the wire-model ones (Wire/Derived, packet_*), not length_fields",
+    "LLC frames other than LLC(dsap, ssap) in information format (supervisory / unnumbered formats, information fields)",
 ]
 # layer kinds of Serialize.lean (the Lean model answers `unmodelled` for option lists whose size/write libtins computes
 # inconsistently — C02's findings — and those cases are then compared against the oracle only)
